@@ -307,7 +307,26 @@ def joint_overflow(s):
     s.reads()
 
 
+def usage_views(s):
+    """C11: every view of usage over a project with two users, typed and
+    untyped consumers."""
+    basic_tree(s)
+    s.put('c1', {'p1': {'VCPU': 2}, 'p2': {'DISK_GB': 10}}, v=39, project='proj1', user='user1', ctype='INSTANCE', cgen=-1)
+    s.put('c2', {'p1': {'VCPU': 1}}, v=37, project='proj1', user='user1', cgen=-1)            # untyped
+    s.put('c3', {'p3': {'VCPU': 1, 'DISK_GB': 5}}, v=39, project='proj1', user='user2', ctype='MIGRATION', cgen=-1)
+    s.put('c4', {'p1': {'MEMORY_MB': 64}}, v=28, project='proj1', user='user2', cgen=-1)       # untyped
+    s.put('c5', {'p3': {'DISK_GB': 1}}, v=39, project='proj2', user='user1', ctype='INSTANCE', cgen=-1)
+    for v in (9, 37, 38, 39):
+        for project in ('proj1', 'proj2', 'proj3'):
+            for user in ('', 'user1', 'user2'):
+                cts = [''] if v < 38 else ['', 'all', 'unknown', 'INSTANCE', 'MIGRATION', 'VOLUME']
+                for ct in cts:
+                    s.do(op='usages', v=v, project=project, user=user, ctype=ct)
+    s.reads()
+
+
 SCENARIOS = {
+    'usage_views': usage_views,
     'joint_overflow': joint_overflow,
     'sync_histories': sync_histories,
     'f7_empty_write_unknown_consumer': f7_empty_write_unknown_consumer,
